@@ -19,7 +19,7 @@ from __future__ import annotations
 
 from typing import Iterable, Iterator, Sequence
 
-OPENERS = {"K", "Wa", "Al", "MA", "MB"}
+OPENERS = {"K", "Wa", "Al", "MA", "MB", "MC"}
 
 TEMPLATES = {
     "M": "Mark: m{i}", "T": "0.3 Mark: m{i}", "Ts": "0.01 Mark: m{i}", "W": "Wait: 0.3s", "I": "Inst", "L": "Long: 3", "H": "Hang",
@@ -33,6 +33,7 @@ TEMPLATES = {
     "SiT": "Simulate: Temp = 5 degC", "SoT": "Simulate off: Temp",      # simulation with a unit (C16/C36)
     # C10/C11: condition on the hardware-fed tag In1, short variants
     "WaI": "Watch: In1 > 1", "SiI": "Simulate: In1 = 0", "L2": "Long: 2", "W1": "Wait: 0.1s",
+    "MC": "Macro: C", "CC": "Call macro: C",      # a third macro (C41: cycle closed by a later call of a body)
     "SiL": "Simulate: Level = 5",      # simulated value == real value; Level feeds the derived tag Twice (C10)
 }
 OPENERS.add("WaI")
